@@ -83,6 +83,10 @@ def mixed_program(rng, u, depth=0, allow_pos=True, size=None, macros=None, comme
                 if comments and rng.random() < 0.25:
                     # a comment inside an actual argument (or inside the group written behind a macro without formals)
                     a.insert(rng.randint(0, len(a)), pp.bt("cmt", "/* ac%d */" % rng.randint(0, 9)))
+                elif comments and rng.random() < 0.2:
+                    # a ONE-LINE comment inside an actual argument: the usage spans several lines (round-6 seeded change:
+                    # a fast path for "plain" expansions skipped the rescan that strips the comment)
+                    a.insert(rng.randint(0, len(a)), pp.bt("cmt", "// al%d" % rng.randint(0, 9)))
                 return a
             if nf == 0:
                 if name in macros and rng.random() < 0.2:
